@@ -126,6 +126,7 @@ const (
 	sLog
 	sTransfer
 	sChild
+	sAuthCall // AUTH + AUTHCALL(value) to an externally owned account, sponsored by the transaction origin
 )
 
 type step struct {
@@ -137,6 +138,7 @@ type step struct {
 	to     int
 	amount uint64
 	child  *node
+	key    int // sAuthCall: index of the authority key (unique per step)
 }
 
 type outcome int
@@ -261,6 +263,8 @@ func (n *node) String() string {
 			fmt.Fprintf(&sb, "LOG%d", len(s.topics))
 		case sTransfer:
 			fmt.Fprintf(&sb, "X(e%d,%d)", s.to, s.amount)
+		case sAuthCall:
+			fmt.Fprintf(&sb, "AUTHCALL(e%d,%d)", s.to, s.amount)
 		case sChild:
 			sb.WriteString(s.child.String())
 		}
@@ -278,6 +282,7 @@ const (
 	nSlots     = 4
 	logDataOff = 0x1000
 	zeroOff    = 0x1400
+	sigOff     = 0x1500
 	initOff    = 0x1800
 	satGas     = uint64(1) << 50
 	maxCode    = 245760 // vm.MaxCodeSize
@@ -335,6 +340,8 @@ func estLen(n *node) uint64 {
 			} else {
 				l += 70
 			}
+		} else if s.k == sAuthCall {
+			l += 220
 		} else {
 			l += 90
 		}
@@ -374,6 +381,8 @@ func budget(n *node, predFail func(*node) bool) uint64 {
 			after = satAdd(after, 80_000)
 		case sTransfer:
 			after = satAdd(after, 70_000)
+		case sAuthCall:
+			after = satAdd(after, 400_000)
 		case sChild:
 			c := s.child
 			cn := budget(c, predFail)
@@ -473,6 +482,29 @@ func (c *compiler) body(n *node) []byte {
 			a.pushAddr(eoas[s.to])
 			a.push(0)
 			a.op(opCALL, opPOP)
+		case sAuthCall:
+			authority, v, r, sg := authFor(s.key, staticCtx(n))
+			var commit [32]byte
+			commit[31] = 1
+			for i, w := range [][]byte{wordOf(uint64(v)), word(r), word(sg), commit[:]} {
+				a.pushN(w)
+				a.push(uint64(sigOff + 32*i))
+				a.op(opMSTORE)
+			}
+			a.push(128)
+			a.push(sigOff)
+			a.pushAddr(authority)
+			a.op(opAUTH, opPOP)
+			a.push(0)
+			a.push(0)
+			a.push(0)
+			a.push(0)
+			a.push(0)
+			a.push(s.amount)
+			a.pushAddr(eoas[s.to])
+			a.push(0)
+			a.push(0)
+			a.op(opAUTHCALL, opPOP)
 		case sChild:
 			ch := s.child
 			if ch.kind.creates() {
@@ -615,4 +647,26 @@ func (c *compiler) body(n *node) []byte {
 		a.raw(b.code)
 	}
 	return a.finish()
+}
+
+// staticCtx is the storage-context address of n when it is known before execution (no created
+// contract on the CALLCODE/DELEGATECALL chain); ok=false otherwise.
+func staticCtxOK(n *node) (common.Address, bool) {
+	for x := n; x != nil; x = x.parent {
+		switch x.kind {
+		case kCall, kStatic:
+			return codeAddr(x.id), true
+		case kCreate, kCreate2:
+			return common.Address{}, false
+		}
+	}
+	return common.Address{}, false
+}
+
+func staticCtx(n *node) common.Address {
+	a, ok := staticCtxOK(n)
+	if !ok {
+		panic("AUTHCALL step in a frame whose address is not known in advance")
+	}
+	return a
 }
